@@ -18,6 +18,21 @@ def main() -> int:
     ap.add_argument('--tier', default=os.environ.get('VERIF_TIER', 'quick'))
     ap.add_argument('--replay')
     a = ap.parse_args()
+    if os.environ.get('PYTHONHASHSEED') is None:
+        # str/bytes hashing decides the iteration order of the library's sets: derive it from the seed (a replay: from the
+        # seed recorded in the replay file) so that a run is reproducible and different seeds explore different orders
+        seed = os.environ.get('VERIF_SEED', '0')
+        if a.replay:
+            try:
+                import json
+                seed = str(json.loads(Path(a.replay).read_text()).get('seed', seed))
+            except (OSError, ValueError):
+                pass
+        try:
+            hs = str(int(seed) % 4294967295)
+        except ValueError:
+            hs = '0'
+        os.execve(sys.executable, [sys.executable] + sys.argv, dict(os.environ, PYTHONHASHSEED=hs))
     from vlib import common
     try:
         mod = importlib.import_module(f'props.{a.prop.lower()}')
